@@ -31,7 +31,7 @@ func checkC12(c *Ctx) {
 	c.Rule("C12.R2", "model evaluation of NearestNeighbor(p) on the same trees and bound tables, distance orderings without ties: the object returned is the one at the least distance (every leaf entry is looked at, no subtree holding the nearest object is skipped)")
 	c.Rule("C12.R3", "the same with ties (several objects, possibly in different subtrees, at the same distance): an object at the least distance is returned — exclusion by the MINMAXDIST bound must not be strict")
 	c.Rule("C12.R4", "distances are compared like with like: the point-to-box bounds return squared distances, math.Sqrt makes them linear, and no ordering comparison (pruning test, accumulator insertion, minimum update) has a squared value on one side and a linear one on the other")
-	c.Rule("C12.R5", "premise of the MINMAXDIST bound and of every prune: each entry's box is the exact envelope of its subtree — the envelope-maintenance obligations of C11.R3 (every mutation followed by an upward pass that reaches the root) hold")
+	c.Rule("C12.R5", "premise of the MINMAXDIST bound and of every prune: each entry's box is the exact envelope of its subtree and parent links follow entries after every Insert/Delete — the envelope and link facets of the C11 model evaluation")
 	p := c.P.Pkg("index/rtree")
 	if p == nil {
 		c.Unk("C12.R1", "index/rtree", token.NoPos, "package not loaded")
